@@ -148,6 +148,8 @@ impl TerminalState {
     }
 
     pub fn next_tab_stop(&mut self, x: i32) -> i32 {
+        #[cfg(icy_engine_verif)]
+        crate::verif::tick(1);
         let mut i = 0;
         while i < self.tab_stops.len() && self.tab_stops[i] <= x {
             i += 1;
@@ -160,6 +162,8 @@ impl TerminalState {
     }
 
     pub fn prev_tab_stop(&mut self, x: i32) -> i32 {
+        #[cfg(icy_engine_verif)]
+        crate::verif::tick(1);
         let mut i = self.tab_stops.len() as i32 - 1;
         while i >= 0 && self.tab_stops[i as usize] >= x {
             i -= 1;
